@@ -96,6 +96,127 @@ def corruptions(rng, doc, root, cfg):
 
 NUM_RE = re.compile(rb"^[+-]?(0|[1-9][0-9]*)(N|M|(\.[0-9]*)?([eE][+-]?[0-9]+)?M?)$")
 
+F_RE = re.compile(r"^(.*) reqs=(\d+)/(\d+) fired=(\d+) live=(-?\d+)", re.S)
+
+
+def fault_corpus(rng, cfg, tier):
+    """short documents (every reader, every marker, every error path) whose reads are repeated with each allocation
+    request failing; returns [(document, option bits)]"""
+    clj = cfg in ("clj", "both")
+    exp = cfg in ("exp", "both")
+    good = [b"nil", b"true", b"42", b"-1.5", b"1e400", b"7N", b"2.5M", b"123456789012345678901", b"\"s\"", b"\"a\\nb\"", b"\\a", b"\\newline", b"\\u0041", b":k", b":n/k",
+            b"sym", b"n/s", b"##Inf", b"[]", b"()", b"{}", b"#{}", b"[1 2]", b"(a b)", b"{:a 1}", b"#{1 2}", b"[[1] {:a [2]}]", b"[1 2 3 4 5 6 7 8 9]",
+            b"#{1 2 3 4 5 6 7 8 9 10 11 12 13 14 15 16 17}", b"{\"k\\n\" 1 \"k2\" 2}", b"#t 1", b"#t [1]", b"#a #b 2", b"#inst \"x\"", b"[#t 1 #u [2]]", b"{#t 1 #u 2}",
+            b"#_ 1 2", b"[1 #_ 2 3]", b"#_ #t [1] 2", b"#_ #_ 1 2 3", b"; c\n1", b"\n\n [1\n 2]", b"1 2", b"[1] x"]
+    bad = [b"", b" ", b"; c", b"[1 2", b"{:a}", b"{:a 1 :b}", b"#{1 1}", b"{:a 1 :a 2}", b"[1 2)", b"\"abc", b"\\", b"#", b"]", b"#_", b"#_ 1", b"#t", b"#t ]", b"[#t]", b"1x",
+           b"[1 1x]", b"\n\n[1\n 2 ::a]", b"[1 #", b"{:a #_ 1}", b"\\ab", b"a/", b"##Nope", b"(((", b"[1 \"ab"]
+    if clj:
+        good += [b"^:a [1 2]", b"^sym x", b"^\"str\" sym", b"^[x y] (f)", b"^{:k 1} sym", b"^{} sym", b"^:a ^:b sym", b"^:a ^:a sym", b"^:a ^{:b 1} ^sym #{1}", b"^sym ^\"s\" ^[a] x",
+                 b"#foo ^:a {}", b"#foo ^s \"x\"", b"[^:a sym]", b"[^:a [1] ^b (2)]", b"{^:a k ^:b v}", b"^:a #t x", b"#_ ^:a x 1", b"^:a #_ 1 x", b"^:a \"s\"", b"^{:a 1} ^{:a 2} [x]",
+                 b"#:p{:a 1}", b"#:p{:a 1 b 2 :_/c 3}", b"^:m #:p{:a 1}", b"0x1F", b"017", b"2r101", b"1/2", b"4/2", b"\\o101", b"\"\\101\""]
+        bad += [b"^:a 5", b"^:a", b"^", b"[^:a]", b"^5 x", b"^:a ]", b"^[x", b"#:p{:a 1 :p/a 2}", b"#:p{:a}", b"#:p", b"#:p [1]", b"1/0", b"09", b"^:a ^:b", b"{^:a}"]
+    if exp:
+        good += [b"\"\"\"\n a\n b\n \"\"\"", b"[\"\"\"\nx \\\"\"\" y\"\"\"]", b"1_000", b"1_0.5_0", b"#{\"\"\"\n a\n \"\"\" \"b\"}"]
+        bad += [b"\"\"\"\nabc", b"\"\"\"", b"1__0", b"1_"]
+    out = []
+    for d in good + bad:
+        out.append((d, 0))
+        out.append((d, 1))
+    # tags under the preset registry (identity, failing, external-value handlers) and every default mode
+    tdocs = [b"#id 1", b"#id [1 2]", b"#fail 1", b"#failq [1]", b"#ext \"abc\"", b"#inst \"x\"", b"[#id 1 #foo 2]", b"#foo 1", b"#foo #id x", b"#_ #fail 1 2", b"#id", b"[#ext]", b"#foo"]
+    if clj:
+        tdocs += [b"^:a #id [1]", b"#id ^:a [1]", b"#foo ^sym x", b"#ext ^:a x", b"^:a #fail x"]
+    for d in tdocs:
+        for opt in (8, 9, 10, 12):
+            out.append((d, opt))
+    if tier == "thorough":
+        for _ in range(150):
+            v = G.gen_value(rng, cfg, depth=rng.choice([1, 2]), width=rng.choice([2, 3]))
+            d = G.render_doc(rng, v, cfg, rich=rng.random() < 0.5)
+            if 0 < len(d) <= 60:
+                out.append((d, rng.choice([0, 0, 1, 8, 10, 12])))
+                out.append((G.mutate(rng, d), rng.choice([0, 1])))
+    return [(d, o) for d, o in out]
+
+
+def malformed_result(dump):
+    """why a printed result breaks 'a value xor an error code with a message', or None"""
+    if dump.startswith("BOTH"):
+        return "both a value and an error code"
+    if dump.startswith("NEITHER"):
+        return "neither a value nor an error code"
+    if "MSG-ON-OK" in dump:
+        return "a value together with an error message"
+    if "BADCODE" in dump:
+        return "an error code outside the documented set"
+    if dump.startswith("err") and "msg=0" in dump:
+        return "an error code without a message"
+    if not (dump.startswith("ok ") or dump.startswith("eofval") or dump.startswith("err ")):
+        return "an unrecognisable result"
+    return None
+
+
+def fault_family(rep, rng, cfg, tier):
+    """the value-xor-error invariant (and 'an ill-formed document is never accepted') on every fault point: for each document of
+    a small corpus each allocation request k of the read is failed alone and from k on (wrap build, F command)"""
+    found = False
+    cases = fault_corpus(rng, cfg, tier)
+    base_lines = ["F 0 1 %d %s" % (o, C.hexs(d)) for d, o in cases]
+    base, bcr = K.run_impl(cfg, base_lines, mode="san", style="wrap")
+    lines, meta = [], []
+    for (d, o), b in zip(cases, base):
+        m = F_RE.match(b) if b else None
+        if m is None:
+            continue
+        dump0, r_read = m.group(1), int(m.group(2))
+        why = malformed_result(dump0)
+        if why:
+            found = True
+            rep.finding("xor", "result carries %s: %s" % (why, dump0[:100]), {"kind": "read", "config": cfg, "opt": o, "input_hex": C.hexs(d), "observed": dump0[:300]})
+        # requests made by the read itself (later ones belong to the accessors used for printing)
+        ks = list(range(1, r_read + 1))
+        if len(ks) > 80:
+            ks = ks[:40] + ks[-40:]
+        for k in ks:
+            for mode in (1, 2):
+                lines.append("F %d %d %d %s" % (k, mode, o, C.hexs(d)))
+                meta.append((d, o, k, mode, dump0))
+    outs, crashes = K.run_impl(cfg, lines, mode="san", style="wrap")
+    rep.count("fault-documents/" + cfg, len(cases))
+    rep.count("fault-runs/" + cfg, len(lines))
+    for src, (idx, rc, err) in [(lines, c) for c in crashes] + [(base_lines, c) for c in bcr]:
+        found = True
+        ln = src[idx] if 0 <= idx < len(src) else ""
+        head = next((l for l in err.split("\n") if "ERROR" in l or "runtime error" in l), err.strip().split("\n")[0] if err.strip() else "")
+        rep.finding("crash-under-fault", "the reader crashed while an allocation request failed: %s" % head[:200],
+                    {"kind": "line", "config": cfg, "style": "wrap", "line": ln, "stderr": err[-3000:]})
+    fired = 0
+    for i, out in enumerate(outs):
+        if out is None:
+            continue
+        d, o, k, mode, dump0 = meta[i]
+        m = F_RE.match(out)
+        rp = {"kind": "line", "config": cfg, "style": "wrap", "line": lines[i], "input_hex": C.hexs(d), "opt": o, "fail_request": k,
+              "fail_mode": "only" if mode == 1 else "from", "observed": out[-500:], "fault_free": dump0[:300]}
+        if m is None:
+            found = True
+            rep.finding("xor-under-fault", "unparseable result line under an allocation failure", rp)
+            continue
+        dump = m.group(1)
+        fired += 1 if int(m.group(4)) else 0
+        why = malformed_result(dump)
+        if why:
+            found = True
+            rep.finding("xor-under-fault", "with allocation request %d failing (%s) the result of %r carries %s: %s" % (k, "alone" if mode == 1 else "and all later ones", d, why, dump[:100]), rp)
+        elif dump0.startswith("err ") and not dump.startswith("err "):
+            found = True
+            rep.finding("accepted-under-fault", "with allocation request %d failing (%s) the ill-formed document %r is accepted: %s (fault-free: %s)" % (k, "alone" if mode == 1 else "and all later ones", d, dump[:80], dump0[:80]), rp)
+    rep.count("fault-runs-fired/" + cfg, fired)
+    if lines and fired == 0:
+        rep.broken_obligation("fault-injection", "no allocation failure fired in configuration %s: the wrap build does not intercept the library's allocations" % cfg, False)
+    rep.note_cases(len(lines), set(C.sha(l)[:16] for l in lines), sample={"line": lines[len(lines) // 2][:120] if lines else "", "out": (outs[len(lines) // 2] or "")[-160:] if outs else ""})
+    return found
+
 
 def run(tier):
     rep = C.Report(PID, tier, "proof")
@@ -275,12 +396,55 @@ def run(tier):
                     rep.finding("number/invalid-accepted", "a malformed number token was not rejected as INVALID_NUMBER: %r -> %s" % (ndocs[i], a[:80]),
                                 {"kind": "read", "config": cfg, "opt": 0, "input_hex": C.hexs(ndocs[i]), "expected": ["INVALID_NUMBER"], "observed": a[:300]})
             rep.note_cases(len(ndocs), set(ndocs))
+
+        # ---- extension spellings of numbers (separators, hexadecimal, octal, radix, ratio pieces in every combination): which tokens are
+        #      numbers is decided by the grammar the Lean theorems identify with the model's number reader (Spec.ExpNum / Spec.CljNum:
+        #      exp_number_reader_is_the_grammar, clj_number_reader_is_the_grammar), so the model's verdict on a token is the expectation
+        if cfg in ("clj", "exp", "both"):
+            xt = []
+            for sg in ("", "-"):
+                for ip in ("0", "7", "12", "1_2", "1__2", "_1", "1_", "00", "007", "08", "0x1F", "0x", "0xG", "0x1_F", "2r101", "2r", "37r1", "2r2", "1r0", "36rZ", "1_0r1"):
+                    for mid in ("", ".", ".5", "._5", ".5_", "_.5", "/2", "/0", "/02", "/0a", "/-2", "/2/3", "/_2", "/2_", "/1_0"):
+                        for ex in ("", "e5", "_e5", "e_5", "e5_", "e1_0", "E+1_0"):
+                            for sf in ("", "N", "M", "_N", "_M", "N_"):
+                                xt.append((sg + ip + mid + ex + sf).encode())
+            xdocs = list(xt) + [b"[1 " + t + b" 2]" for t in xt[::7]]
+            impl, model, diffs, crashes, mcr = K.correspond(cfg, K.read_lines(xdocs))
+            rep.count("extension-number-tokens/" + cfg, len(xdocs))
+            rep.count("extension-number-tokens-accepted/" + cfg, sum(1 for m in model if m and m.startswith("ok ")))
+            seen_cls = set()
+            for i in diffs:
+                a_, m_ = impl[i] or "", model[i] or ""
+                if m_.startswith("err INVALID_NUMBER") and a_.startswith("ok "):
+                    cls = "number/invalid-accepted"
+                elif m_.startswith("ok ") and a_.startswith("err "):
+                    cls = "number/valid-rejected"
+                elif m_.startswith("ok ") and a_.startswith("ok "):
+                    cls = "number/read-differently"
+                else:
+                    cls = "number/wrong-class-or-range"
+                if cls in seen_cls:
+                    continue
+                seen_cls.add(cls)
+                found = True
+                rep.finding(cls, "by the proven number grammar of this configuration %r must read as %s; the library answers %s" % (xdocs[i], m_[:100], a_[:100]),
+                            {"kind": "read", "config": cfg, "opt": 0, "input_hex": C.hexs(xdocs[i]), "expected": m_[:300], "observed": a_[:300]})
+            rep.note_cases(len(xdocs), set(xdocs))
+
+        # ---- the same invariant on every fault point of a small corpus
+        if fault_family(rep, rng, cfg, tier):
+            found = True
     U.finish_proof(rep, lean, found)
 
 
 def replay(path):
     r = json.load(open(path))
     print(json.dumps(r, indent=1)[:2500])
+    if r.get("kind") == "line":
+        exe = C.harness(r.get("style", "wrap"), r["config"], "san")
+        out = C.run_lines(exe, [r["line"]])
+        print("now:", out.outputs, out.returncode, out.stderr[-1500:])
+        return 0
     exe = C.harness("unity", r["config"], "san")
     out = C.run_lines(exe, K.read_lines([bytes.fromhex(r["input_hex"])], r.get("opt", 0)))
     print("now:", out.outputs, "| expected:", r.get("expected"))
